@@ -462,7 +462,12 @@ class Flow:
                 continue
             base = r[6:] if r.startswith('param:') else r
             for sf in sufs:
-                out.add(base + sf if sf else r)
+                if sf and base.endswith(sf):
+                    # x = x.attr / x = x.method(...) re-applied by the
+                    # fixpoint: keep one application
+                    out.add(base)
+                else:
+                    out.add(base + sf if sf else r)
         if not out:
             out.add(unparse(e))
         return out
@@ -728,6 +733,7 @@ class Flow:
                     out |= self.elem_atoms(r, idx, callee, b, depth + 1,
                                            _seen)
                 if out:
+                    out.add(callee.qualname + '(' + self._arg_text(e) + ')')
                     return out
         if isinstance(e, ast.IfExp):
             return self.elem_atoms(e.body, idx, fn, bind, depth, _seen) | \
@@ -1117,6 +1123,9 @@ class Flow:
                 out |= A(e.func.value)
                 for a in args:
                     out |= A(a)
+                if e.func.attr in ('split', 'rsplit', 'partition',
+                                   'rpartition'):
+                    out.add('split()')      # component-wise view
                 return out
         # opaque call: its canonical text(s), plus what flows into it
         # (tagged `via:` -- the result is computed from, not part of, them)
@@ -1156,7 +1165,13 @@ class Flow:
         at = self._arg_text(e)
         out = set()
         for h in heads:
-            out.add(h + '(' + at + ')')
+            t = h + '(' + at + ')'
+            if '.' in h:
+                base, meth = h.rsplit('.', 1)
+                piece = '.' + meth + '(' + at + ')'
+                if base.endswith(piece):
+                    t = base         # x = x.m(..) re-applied by the fixpoint
+            out.add(t)
         return out
 
     def _call_heads(self, e, fn, bind, depth, _seen):
@@ -1168,6 +1183,8 @@ class Flow:
                 if r.startswith(('const:', 'key:', 'alloc:', 'via:')):
                     continue
                 base = r[6:] if r.startswith('param:') else r
+                if len(base) > 200:
+                    continue
                 heads.add(base + '.' + f.attr)
             if not heads:
                 heads.add(unparse(f))
